@@ -127,8 +127,9 @@ def bits2int(hb, n):
     return int.from_bytes(hb, "big")
 
 
-def ecdsa_verify(E, G, n, r, s, digest, Q):
-    """Q is None (identity) or an (x, y) pair that need not be on the curve"""
+def ecdsa_verify(E, G, n, r, s, digest, Q, lin=None):
+    """Q is None (identity) or an (x, y) pair that need not be on the curve; lin(k1, P1, k2, P2) optionally
+    replaces the affine double-and-add by the (cross-checked) Jacobian one"""
     if not (1 <= r < n and 1 <= s < n):
         return False
     if Q is None or not E.on_curve(Q):
@@ -139,8 +140,100 @@ def ecdsa_verify(E, G, n, r, s, digest, Q):
         return False
     e = bits2int(digest, n)
     w = pow(s, -1, n)
-    X = E.add(E.mul(e * w % n, G), E.mul(r * w % n, Q))
+    if lin is not None:
+        X = lin(e * w % n, G, r * w % n, Q)
+    else:
+        X = E.add(E.mul(e * w % n, G), E.mul(r * w % n, Q))
     return X is not None and X[0] % n == r
+
+
+class FastCurve(object):
+    """Jacobian double-and-add and Shamir's trick over Python integers: a second, faster reference for
+    k1 P1 + k2 P2 (an affine inversion per step made the plain model the bottleneck).  Cross-checked against
+    the affine WCurve model at start-up (selftest) - plain textbook formulas, no recoding, no tables."""
+
+    def __init__(self, p, a, b):
+        self.p, self.a, self.b = p, a, b
+
+    def dbl(self, P):
+        if P is None:
+            return None
+        X, Y, Z = P
+        p = self.p
+        if Y == 0:
+            return None
+        YY = Y * Y % p
+        S = 4 * X * YY % p
+        ZZ = Z * Z % p
+        M = (3 * X * X + self.a * ZZ * ZZ) % p
+        X3 = (M * M - 2 * S) % p
+        Y3 = (M * (S - X3) - 8 * YY * YY) % p
+        Z3 = 2 * Y * Z % p
+        return (X3, Y3, Z3)
+
+    def add_aff(self, P, Q):
+        """Jacobian P + affine Q"""
+        if Q is None:
+            return P
+        if P is None:
+            return (Q[0], Q[1], 1)
+        X1, Y1, Z1 = P
+        p = self.p
+        ZZ = Z1 * Z1 % p
+        U2 = Q[0] * ZZ % p
+        S2 = Q[1] * ZZ * Z1 % p
+        Hh = (U2 - X1) % p
+        r = (S2 - Y1) % p
+        if Hh == 0:
+            if r == 0:
+                return self.dbl(P)
+            return None
+        HH = Hh * Hh % p
+        HHH = HH * Hh % p
+        V = X1 * HH % p
+        X3 = (r * r - HHH - 2 * V) % p
+        Y3 = (r * (V - X3) - Y1 * HHH) % p
+        Z3 = Z1 * Hh % p
+        return (X3, Y3, Z3)
+
+    def aff(self, P):
+        if P is None:
+            return None
+        X, Y, Z = P
+        p = self.p
+        if Z % p == 0:
+            return None
+        zi = pow(Z, -1, p)
+        z2 = zi * zi % p
+        return (X * z2 % p, Y * z2 * zi % p)
+
+    def neg(self, Q):
+        return None if Q is None else (Q[0], -Q[1] % self.p)
+
+    def lin(self, k1, P1, k2=0, P2=None):
+        """k1 P1 + k2 P2 for affine points (None = identity), any integers k"""
+        if k1 < 0:
+            k1, P1 = -k1, self.neg(P1)
+        if k2 < 0:
+            k2, P2 = -k2, self.neg(P2)
+        if P1 is None:
+            k1 = 0
+        if P2 is None:
+            k2 = 0
+        S = None
+        if k1 and k2:
+            S = self.aff(self.add_aff((P1[0], P1[1], 1), P2))
+        tab = {(1, 0): P1, (0, 1): P2, (1, 1): S}
+        R = None
+        for i in range(max(k1.bit_length(), k2.bit_length()) - 1, -1, -1):
+            R = self.dbl(R)
+            t = ((k1 >> i) & 1, (k2 >> i) & 1)
+            if t != (0, 0):
+                R = self.add_aff(R, tab[t])
+        return self.aff(R)
+
+    def mul(self, k, P):
+        return self.lin(k, P)
 
 
 class PX(RT):
@@ -269,8 +362,22 @@ class PX(RT):
         self.EC = WCurve(Fp(pr["p"]), pr["a"], pr["b"], pr["n"], pr["h"])
         self.G = (pr["gx"], pr["gy"])
         self.n = pr["n"]
+        self.FCv = FastCurve(pr["p"], pr["a"], pr["b"])
+        self._selftest_fast()
         self.FC = self.K["RLC_FC_BYTES"]
         return pr
+
+    def _selftest_fast(self):
+        import random
+        rng = random.Random(self.n & 0xFFFF)
+        E, F, G, n = self.EC, self.FCv, self.G, self.n
+        P = E.mul(rng.randrange(2, n), G)
+        for k1, k2 in ((0, 0), (1, 0), (0, 1), (1, 1), (2, n - 2), (n, 5), (n - 1, 1), (rng.randrange(n), rng.randrange(n)),
+                       (-3, 7), (rng.getrandbits(300), -rng.getrandbits(280))):
+            if not E.eq(F.lin(k1, G, k2, P), E.add(E.mul(k1, G), E.mul(k2, P))):
+                raise RuntimeError("fast curve model disagrees with the affine model")
+        if not E.eq(F.lin(3, G, 3, E.neg(G)), None) or not E.eq(F.lin(2, G, 1, G), E.mul(3, G)):
+            raise RuntimeError("fast curve model: exceptional cases")
 
     def pt(self, P):
         """library ep point -> model point (None = identity); coordinates need not satisfy the equation"""
@@ -291,10 +398,17 @@ class PX(RT):
         return P
 
     def enc(self, Q):
-        """compressed SEC 1 encoding as written by ep_write_bin(.., pack = 1)"""
+        """compressed encoding as written by ep_write_bin(.., pack = 1).  The tag bit is an implementation
+        constant of the library (judged by C07, not here): y > (p-1)/2 on pairing-friendly curves, otherwise
+        bit 0 of the *internal* (Montgomery) representation of y."""
         if Q is None:
             return b"\x00"
-        return bytes([2 | (Q[1] & 1)]) + Q[0].to_bytes(self.FC, "big")
+        p = self.curve["p"]
+        if self.curve["pairf"]:
+            b = 1 if Q[1] % p > (p >> 1) else 0
+        else:
+            b = (Q[1] * self.mont % p) & 1
+        return bytes([2 | b]) + (Q[0] % p).to_bytes(self.FC, "big")
 
     # ep2 (flat: x0 x1 y0 y1 z0 z1 coord)
     def ep2_get(self, Q):
